@@ -87,6 +87,9 @@ var c19UserFiles = []struct{ Name, Content string }{
 	{"README.md", "# my service\n"},
 	{"client_test.go", "package test\n\n// user test file\n"},
 	{"zz_custom.go", "package test\n\nvar Custom = 1\n"},
+	// a user file of the same package that imports third-party packages under the names the generated code uses for the
+	// standard library (a goimports run that looks at sibling files would borrow them)
+	{"zz_impl.go", "package test\n\nimport (\n\t\"example.com/project/fmt\"\n\t\"example.com/project/json\"\n\t\"example.com/project/log\"\n\t\"example.com/project/strings\"\n)\n\nvar _ = log.Println\nvar _ = fmt.Errorf\nvar _ = json.Marshal\nvar _ = strings.HasPrefix\n"},
 }
 
 func c19Run(dir string, i c19Inv) error {
@@ -321,6 +324,9 @@ func runC19(c runCfg) error {
 	for _, h := range hists {
 		cases = append(cases, c19Case{K: 0, Hist: h})
 		cases = append(cases, c19Case{K: 3, D0: []string{"o0=0", "o1=1", "o2=2"}, Hist: h})
+		if len(h) <= 2 {
+			cases = append(cases, c19Case{K: 4, D0: []string{"o3=3"}, Hist: h})
+		}
 	}
 	// files that look up to date before the last run: every owned file x every invocation x three near-copies,
 	// as a one-step history and behind a different first step
@@ -407,7 +413,7 @@ func runC19(c runCfg) error {
 			}
 			return t
 		}(),
-		"user_files": []string{c19UserFiles[0].Name, c19UserFiles[1].Name, c19UserFiles[2].Name},
+		"user_files": []string{c19UserFiles[0].Name, c19UserFiles[1].Name, c19UserFiles[2].Name, c19UserFiles[3].Name},
 	}
 	bs, _ := json.MarshalIndent(meta, "", " ")
 	return os.WriteFile(filepath.Join(c.Out, "meta.json"), bs, 0o644)
